@@ -21,6 +21,7 @@ from gv.astutil import walk_body
 from gv.cfg import cfg_of
 from gv.dataflow import UNKNOWN
 from gv.dataflow import Forward
+from gv.props.shared import unfolded
 from gv.props import describe
 from gv.report import Ctx
 from gv.report import cname
@@ -470,6 +471,11 @@ def check_keys(ctx: Ctx) -> None:
         ok = isinstance(v, ast.IfExp) and dotted(v.test) == "copy" and isinstance(v.body, ast.Call) and last_attr(v.body) in ("np_array", "array", "copy") and dotted(v.orelse) == "array"
         if isinstance(v, ast.Call) and last_attr(v) in ("np_array", "array", "copy"):
             ok = True  # always copying is stronger
+        if not ok:
+            # the same through a conditional re-assignment: what is stored when copy is requested / is not
+            on = unfolded(init, s, {"copy": True}, get=lambda st: st.value)
+            off = unfolded(init, s, {"copy": False}, get=lambda st: st.value)
+            ok = bool(on) and all(isinstance(a_, ast.Call) and last_attr(a_) in ("np_array", "array", "copy") and "array" in names_in(a_) for a_ in on) and bool(off) and all("array" in names_in(a_) for a_ in off)
         ctx.ob("1.6-wrap-copy", con3, ok, "the wrapped array must be a fresh copy when copy=True", node=s)
     hs = rules.assigns_to_self(init, "__hash", "HashableNdarray")
     ctx.need(hs, "HashableNdarray.__init__ does not bind __hash")
